@@ -209,6 +209,6 @@ def harnesses(world, tier, seed):
         HostsMerge(name='hosts-merge', bounds={'files': 2, 'mappings each': 'v4 0..2, v6 0..1', 'names': '1-label symbolic over {a,b}', 'addresses': 'symbolic'}, expected_classes=('merged',)),
     ]
     if not q:
-        hs.append(ZoneMerge(name='merge-2plus1', nrec=(2, 1), maxdepth=1, qdepth=1, types=('A',), qtypes=(1, 255), bounds={'files': '2 zones, 2 + 1 A records (ordinary or wildcard, owner depth 0..1)', 'query': 'depth 0..1; A, ANY'}, expected_classes=('answer', 'answer-wild')))
-        hs.append(ZoneMerge(name='merge-3files', nrec=(1, 1, 1), maxdepth=1, qdepth=1, types=('A',), bounds={'files': '3 zones, 1 A record each (ordinary or wildcard)', 'query': 'depth 0..1'}, expected_classes=('answer',)))
+        hs.append(ZoneMerge(name='merge-2plus1', hash_orders=False, nrec=(2, 1), maxdepth=1, qdepth=1, types=('A',), qtypes=(1, 255), bounds={'files': '2 zones, 2 + 1 A records (ordinary or wildcard, owner depth 0..1)', 'query': 'depth 0..1; A, ANY'}, expected_classes=('answer', 'answer-wild')))
+        hs.append(ZoneMerge(name='merge-3files', hash_orders=False, nrec=(1, 1, 1), maxdepth=1, qdepth=1, types=('A',), bounds={'files': '3 zones, 1 A record each (ordinary or wildcard)', 'query': 'depth 0..1'}, expected_classes=('answer',)))
     return hs, (1500 if q else 5400), None
